@@ -267,6 +267,8 @@ def replay_case(case):
     if case["kind"] == "tables":
         check_tables(acc, out)
         return out
+    if case["kind"] == "vargroups":
+        return engine.replay_block(("vargroups",)) if engine._EVAL is not None else (vargroup_sequence(acc, out) or out)
     e = [x for x in C.entries() if x.label == case["entry"]][0]
     grammar(e.label, e.pdict, acc, out)
     if e.routed and not C.invalid_types(e.pdict):
@@ -277,8 +279,41 @@ def replay_case(case):
     return out
 
 
+def vargroup_sequence(acc, out):
+    """Every definition with a variable-by-size group, walked GET -> SET -> POLL in ONE process: two members
+    sent, two distinctly named copies of each member must come back (a definition must stay usable whatever
+    other definition of the same message was used before)."""
+    for e in C.entries():
+        if not e.routed or C.invalid_types(e.pdict):
+            continue
+        if not any(isinstance(v, tuple) and v[0] == "None" for v in e.pdict.values()):
+            continue
+        pl = C.build_payload(e, lambda x: 1, 2, lambda i: (5 * i + 3) % 250)
+        if not pl:
+            continue
+        try:
+            w, key = C.walk_frame(e.mode, e.clsid, pl, True)
+            if w is None or key != e.key or w.short or w.off != len(pl) or w.cfgitems is not None:
+                continue
+            m = UBXReader.parse(ref.frame(e.clsid[0], e.clsid[1], pl), msgmode=e.mode)
+            nf = sum(1 for f in w.fields if f.exposed and not f.name.startswith("_HP"))
+            na = sum(1 for k in m.__dict__ if not k.startswith("_"))
+            acc.transitions += 1
+            if na != nf:
+                out.append((f"declared_definition_unusable_after_other_definitions|{e.label}", f"{nf} named fields, {na} attributes"))
+        except Exception as ex:  # noqa: BLE001
+            out.append((f"declared_definition_unusable_after_other_definitions|{e.label}|{type(ex).__name__}", str(ex)))
+
+
 def eval_block(block, acc):
     ents = C.entries()
+    if block[0] == "vargroups":
+        out = []
+        vargroup_sequence(acc, out)
+        acc.evaluations += 1
+        for key, detail in out:
+            acc.violation(key, {"kind": "vargroups"}, detail)
+        return
     if block[0] == "tables":
         out = []
         check_tables(acc, out)
@@ -313,7 +348,7 @@ def run_tier(tier, t0):
     ents = C.entries()
     counts = (1,) if q else (0, 1, 2)
     idx = list(range(len(ents)))
-    blocks = [("entries", idx[i::32], counts) for i in range(32)] + [("tables",)]
+    blocks = [("entries", idx[i::32], counts) for i in range(32)] + [("tables",), ("vargroups",)]
     acc = engine.sweep(blocks, eval_block)
     engine.finish(
         PROP, tier, acc, t0, replay_case,
